@@ -1619,9 +1619,11 @@ class rx:
             for _, params in full_groupby(self._fn_params, lambda x: id(x.owner)):
                 fps = [p.name for p in params if p in self._root._fn_params]
                 if fps:
-                    params[0].owner.param._watch(self._invalidate_obj, fps, precedence=-1)
+                    params[0].owner.param._watch(self._invalidate_obj, fps, onlychanged=False, precedence=-1)
+        # Every assignment invalidates, also of a value that compares equal
+        # to the previous one (1, True and 1.0 are different results)
         for _, params in full_groupby(self._internal_params, lambda x: id(x.owner)):
-            params[0].owner.param._watch(self._invalidate_current, [p.name for p in params], precedence=-1)
+            params[0].owner.param._watch(self._invalidate_current, [p.name for p in params], onlychanged=False, precedence=-1)
 
     def _invalidate_current(self, *events):
         if all(event.obj is self._trigger for event in events):
